@@ -5445,7 +5445,6 @@ CMR_ERROR CMRgraphicTestTranspose(CMR* cmr, CMR_CHRMAT* matrix, bool* pisCograph
 
   if (!CMRchrmatIsBinary(cmr, matrix, psubmatrix))
   {
-    assert(false);
     *pisCographic = false;
     return CMR_OKAY;
   }
